@@ -153,6 +153,22 @@ def v3000_hub_sessions(rng, tier):
     return ss
 
 
+def v3000_manylines_sessions(rng, tier):
+    """a multi-attachment bond whose ENDPTS list is continued over more than a thousand physical lines (one endpoint per line)"""
+    ss = []
+    for k in ((1100,) if tier == "quick" else (1100, 2500)):
+        atoms = [dict(sym="Fe", chg=0, rad=0, mass=0, x="0", y="0", z="0")] + [dict(sym="C", chg=0, rad=0, mass=0, x="1", y="0", z="0") for _ in range(k)]
+        M = {"atoms": atoms, "bonds": [(0, i, 9) for i in range(1, k + 1)]}
+        lines = ["", "  SPEC", "", "  0  0  0     0  0            999 V3000", "M  V30 BEGIN CTAB", f"M  V30 COUNTS {k + 2} 1 0 0 0", "M  V30 BEGIN ATOM"]
+        lines += [f"M  V30 {i + 1} {a['sym']} {a['x']} {a['y']} {a['z']} 0" for i, a in enumerate(atoms)]
+        lines += [f"M  V30 {k + 2} * 0 0 0 0", "M  V30 END ATOM", "M  V30 BEGIN BOND", f"M  V30 1 9 {k + 2} 1 ENDPTS=({k} -"]
+        lines += [f"M  V30 {i} -" for i in range(2, k + 1)] + [f"M  V30 {k + 1}) ATTACH=ALL", "M  V30 END BOND", "M  V30 END CTAB", "M  END"]
+        S = Session(f"v3manylines-{k}")
+        S.read(lines, "V3000", "C07", mol=textgen.mol_event(M), floats=textgen.floats_of(M))
+        ss.append(S)
+    return ss
+
+
 def permuted(M, perm):
     n = len(M["atoms"])
     atoms = [None] * n
@@ -186,6 +202,7 @@ def c07(out, tier, rng):
     ss += v3000_history_sessions(rng, tier, 15 if tier == "quick" else 150)
     ss += v3000_hub_sessions(rng, tier)
     ss += v3000_samepath_sessions(rng, tier)
+    ss += v3000_manylines_sessions(rng, tier)
     ss += corpus_text_sessions("C07", tier, rng, 120 if tier == "quick" else 400)
     for s in ss:
         out.count(("c07", json.dumps(s.ev[0].get("lines", []))[:2000]), nontrivial=True)
